@@ -224,6 +224,14 @@ def execute(scenario, chooser):
         st['net'] = net
         jlog = []
         st['jlog'] = jlog
+        inst = {}           # id(agent) -> index of its hand-over in jlog
+        agents_alive = []   # keeps the agents referenced (ids stay unique)
+
+        def running_instances():
+            cur = wa._jobs.get_current()
+            lst = ([cur] if cur else []) + list(wa._jobs.get_background())
+            agents_alive.extend(lst)
+            return [inst.get(id(a)) for a in lst]
 
         class RecJobControl(JobControl):
             def _rec(self, op, name=None, job=None):
@@ -236,7 +244,9 @@ def execute(scenario, chooser):
 
             def add_job(self, job, name=None):
                 self._rec('add', name, job)
-                return super().add_job(job, name)
+                agent = super().add_job(job, name)
+                inst[id(agent)] = len(jlog) - 1
+                return agent
 
             def insert_job(self, job, name=None):
                 self._rec('insert', name, job)
@@ -244,7 +254,9 @@ def execute(scenario, chooser):
 
             def spawn_job(self, job, name):
                 self._rec('spawn', name, job)
-                return super().spawn_job(job, name)
+                agent = super().spawn_job(job, name)
+                inst[id(agent)] = len(jlog) - 1
+                return agent
 
             def stop_job(self, name):
                 self._rec('stop_job', name)
@@ -284,6 +296,7 @@ def execute(scenario, chooser):
                                     ([wa._jobs.get_current()]
                                      if wa._jobs.get_current() else []) +
                                     list(wa._jobs.get_background())],
+                 'inst_before': running_instances(),
                  'exc': None, 'status': 200}
             try:
                 front_end.blueprint.dispatch(r['path'])
@@ -299,6 +312,7 @@ def execute(scenario, chooser):
             o['rendered'] = [(t, _ctx_summary(c))
                              for t, c in flask_stub.rendered[o['r0']:]]
             o['queued_after'] = [a.name for a in wa._jobs.get_queued()]
+            o['inst_after'] = running_instances()
             o['running_after'] = [a.name for a in
                                   ([wa._jobs.get_current()]
                                    if wa._jobs.get_current() else []) +
@@ -483,12 +497,15 @@ def judge(sc, obs, st, violation, probes, res):
             reported = action[0]['script']['running'] if action and \
                 action[0].get('script') else None
             name = handed.get(p)
-            if e is not None and name is not None and \
-                    name in o['running_before']:
-                # the job handed over for p was running when the request came
+            mine = [k for k, j in enumerate(st['jlog'])
+                    if j['op'] in ('add', 'spawn') and j['name'] == name
+                    and j['ev'] < o['ev0']]
+            before = [k for k in o['inst_before'] if k in mine]
+            if e is not None and name is not None and before:
+                # a job handed over for p was running when the request came
                 probes['stop_named'] = 1
                 named = [s for s in stops if s['op'] == 'stop_job']
-                still = name in _running_now(o, st)
+                still = any(k in o['inst_after'] for k in before)
                 if not named and still:
                     violation('stop-not-delivered',
                               '{}: the job started for this path runs under '
